@@ -435,6 +435,21 @@ func c07checkBatch(c *fw.Check, cases []c07case, base int, mu *sync.Mutex, inval
 				}
 				tIR = constant.NewGetElementPtr(ge.ElemType, ge.Src, idx...).Type().String()
 			})
+			// the INSTRUCTION constructor fed with the indices of the parsed constant expression (the
+			// parser wraps every constant-expression index in a *constant.Index, with or without
+			// inrange): code built from parsed pieces does exactly this.
+			var tMix string
+			if pm := fw.Try(func() {
+				var idx []value.Value
+				for _, ix := range ge.Indices {
+					idx = append(idx, ix)
+				}
+				tMix = ir.NewGetElementPtr(ge.ElemType, ge.Src, idx...).Type().String()
+			}); pm != "" {
+				report(cs, "ir-constructor-panics/wrapped-constant-indices", "", pm)
+			} else if tMix != cs.Want {
+				report(cs, "ir-instruction-type/wrapped-constant-indices", tMix, "ir.NewGetElementPtr over the (wrapped) indices of the parsed constant expression computes a type different from LLVM's")
+			}
 			if p != "" {
 				report(cs, "constant-constructor-panics", "", p)
 			} else {
